@@ -89,7 +89,9 @@ class VDatetime(_dt.datetime):
             return _dt.datetime.now(tz)
         base = EPOCH + _dt.timedelta(seconds=loop._vtime + loop.wall_skew)
         if tz is None:
-            base = base.replace(tzinfo=None)
+            # what datetime.now() gives: the host's *local* wall clock (TZ / time.tzset()), naive.  Identical to UTC in
+            # the sandbox's default zone; a case may choose another zone with ``host_timezone``.
+            base = _dt.datetime.fromtimestamp(base.timestamp())
         else:
             base = base.astimezone(tz)
         return cls(base.year, base.month, base.day, base.hour, base.minute, base.second,
@@ -134,6 +136,8 @@ class MemTransport(asyncio.Transport):
         self._inflight: list = []
         self._seq = 0
         self._last_when = 0.0
+        self.half_closed = False    # the peer sent FIN and the protocol's eof_received() asked to keep the transport open
+        self.deliver_type = getattr(loop.net, "deliver_type", bytes)
 
     # asyncio.Transport surface used by msmart
     def get_extra_info(self, name, default=None):
@@ -152,12 +156,22 @@ class MemTransport(asyncio.Transport):
             # real transports log and drop
             return
         self.bytes_written += len(data)
+        if self.half_closed:
+            # the peer is gone: the kernel takes the bytes, the peer's stack answers with a reset a moment later
+            self._loop.call_later(0.001, self._reset_after_half_close)
+            return
         if self.server is not None:
             self._loop.call_soon(self._deliver_to_server, data)
 
     def _deliver_to_server(self, data: bytes) -> None:
         if self.server is not None:
             self.server.data_received(data)
+
+    def _reset_after_half_close(self) -> None:
+        if self._closing:
+            return
+        self._closing = True
+        self._loop.call_soon(self._call_lost, ConnectionResetError(104, "Connection reset by peer"))
 
     def close(self) -> None:
         if self._closing:
@@ -182,8 +196,10 @@ class MemTransport(asyncio.Transport):
     # server side helpers
     def feed(self, data: bytes) -> None:
         """Deliver bytes from the peer to the client protocol (one TCP segment)."""
-        if self._closing or self._lost:
+        if self._closing or self._lost or self.half_closed:
             return
+        if self.deliver_type is not bytes:
+            data = self.deliver_type(data)
         try:
             self._protocol.data_received(data)
         except Exception as e:
@@ -209,19 +225,45 @@ class MemTransport(asyncio.Transport):
         now = self._loop.time() + 1e-9
         while self._inflight and self._inflight[0][0] <= now:
             _w, _s, data = heapq.heappop(self._inflight)
-            self.feed(data)
+            if isinstance(data, tuple):          # ("close", exc, same_pass)
+                self.peer_close(data[1], same_pass=data[2])
+            else:
+                self.feed(data)
 
-    def peer_close(self, exc: Optional[Exception] = None) -> None:
-        """The peer closed (FIN) or reset (exc) the connection."""
-        if self._closing:
+    def close_later(self, delay: float, exc: Optional[Exception] = None, same_pass: bool = False) -> None:
+        """The peer's FIN (exc None) or RST, ordered behind the bytes already in flight.  ``same_pass``: the event loop
+        learns of the data and of the end of the connection in one pass, so connection_lost() runs before any task woken
+        by the data (what a loop does whose reader needs extra iterations, e.g. wait_for before Python 3.12)."""
+        import heapq
+        self._seq += 1
+        when = max(self._loop.time() + max(0.0, delay), self._last_when)
+        self._last_when = when
+        heapq.heappush(self._inflight, (when, self._seq, ("close", exc, same_pass)))
+        self._loop.call_at(when, self._deliver_due)
+
+    def peer_close(self, exc: Optional[Exception] = None, same_pass: bool = False) -> None:
+        """The peer closed (FIN) or reset (exc) the connection.  As asyncio's selector transport: on FIN the protocol's
+        eof_received() decides; a false value closes the transport, a true value leaves it open for writing (half-closed)
+        until a later write is answered with a reset."""
+        if self._closing or self.half_closed:
             return
-        self._closing = True
         if exc is None:
             try:
-                self._protocol.eof_received()
-            except Exception:
-                pass
-        self._loop.call_soon(self._call_lost, exc)
+                keep_open = self._protocol.eof_received()
+            except Exception as e:
+                self._loop.call_exception_handler({"message": "eof_received raised", "exception": e,
+                                                   "transport": self, "protocol": self._protocol})
+                self._closing = True
+                self._loop.call_soon(self._call_lost, e)
+                return
+            if keep_open:
+                self.half_closed = True
+                return
+        self._closing = True
+        if same_pass:
+            self._call_lost(exc)
+        else:
+            self._loop.call_soon(self._call_lost, exc)
 
 
 class MemDatagramTransport(asyncio.DatagramTransport):
@@ -282,12 +324,15 @@ class Net:
         self.udp_sent: list = []        # (time, data, addr)
         self.transports: list = []
         self._next_conn = 0
+        self.resolver: dict = {}        # host name -> current IP address
+        self.deliver_type = bytes       # type handed to data_received (bytes per the asyncio contract; bytearray on some loops)
 
     def listen(self, ip: str, port: int, host) -> None:
         self.tcp_hosts[(ip, port)] = host
 
     async def tcp_connect(self, loop: VLoop, factory, host, port):
         policy = "accept"
+        host = self.resolver.get(host, host)        # name resolution happens on every connect, as in loop.create_connection
         target = self.tcp_hosts.get((host, port))
         if target is None:
             policy = "refuse"
@@ -411,4 +456,60 @@ def install_clock() -> None:
     import msmart.cloud as cloud
     lan.datetime = VDatetime
     cloud.datetime = VDatetime
+    # the host's other clocks: while a virtual loop runs, time.monotonic() *is* the loop clock (as on a real loop) and
+    # time.time() is the same wall clock VDatetime shows; outside a run they are the real ones
+    import time as _time
+    real_monotonic, real_time = _time.monotonic, _time.time
+    mono_base = 1000.0
+
+    def v_monotonic():
+        loop = CURRENT
+        if isinstance(loop, VLoop) and loop.is_running():
+            return mono_base + loop._vtime
+        return real_monotonic()
+
+    def v_time():
+        loop = CURRENT
+        if isinstance(loop, VLoop) and loop.is_running():
+            return EPOCH.timestamp() + loop._vtime + loop.wall_skew
+        return real_time()
+
+    def v_monotonic_ns():
+        return int(v_monotonic() * 1e9)
+
+    def v_time_ns():
+        return int(v_time() * 1e9)
+    _time.monotonic, _time.time, _time.monotonic_ns, _time.time_ns = v_monotonic, v_time, v_monotonic_ns, v_time_ns
     _INSTALLED = True
+
+
+class host_timezone:
+    """Context manager: the host's local time zone is ``tz`` (a POSIX TZ string, needs no tzdata) for the duration."""
+
+    def __init__(self, tz: Optional[str]) -> None:
+        self.tz = tz
+
+    def __enter__(self):
+        import os
+        import time as _time
+        self._old = os.environ.get("TZ")
+        if self.tz is not None:
+            os.environ["TZ"] = self.tz
+            _time.tzset()
+        return self
+
+    def __exit__(self, *exc):
+        import os
+        import time as _time
+        if self.tz is not None:
+            if self._old is None:
+                os.environ.pop("TZ", None)
+            else:
+                os.environ["TZ"] = self._old
+            _time.tzset()
+        return False
+
+
+def seconds_from_epoch(year: int, month: int, day: int, hour: int = 0, minute: int = 0) -> float:
+    """wall_skew that puts virtual time 0 at the given UTC instant."""
+    return (_dt.datetime(year, month, day, hour, minute, tzinfo=_dt.timezone.utc) - EPOCH).total_seconds()
